@@ -322,11 +322,8 @@ class Runner {
   void note(const std::string& s) { notes.push_back(s); }
   void harnessFail(const std::string& msg) { harnessError = true; harnessErrorMsg += msg + "\n"; }
   // vacuity guard: demand that an outcome class was observed
-  void expectSeen(const std::string& key, uint64_t atLeast = 1) {
-    if (replay) return;
-    auto it = total.hist.find(key);
-    if (it == total.hist.end() || it->second < atLeast) harnessFail("vacuity guard: outcome class '" + key + "' observed fewer than " + str(atLeast) + " times");
-  }
+  // evaluated in finish(), and only when no violation was found (a violation cuts the exploration behind it)
+  void expectSeen(const std::string& key, uint64_t atLeast = 1) { expected.push_back({key, atLeast}); }
 
   int finish() {
     std::string rm = "rm -rf '" + tmpdir + "'"; if (system(rm.c_str())) {}
@@ -335,6 +332,9 @@ class Runner {
       return replayFailed ? 1 : 0;
     }
     for (auto& kv : total.violcount) if (kv.first == "HARNESS-NONDETERMINISM") harnessFail("determinism gate failed");
+    bool allComplete = true; for (auto& s : stats) if (!s.complete) allComplete = false;
+    if (total.violcount.empty() && allComplete) for (auto& e : expected) { auto it = total.hist.find(e.first);
+      if (it == total.hist.end() || it->second < e.second) harnessFail("vacuity guard: outcome class '" + e.first + "' observed fewer than " + str(e.second) + " times"); }
     if (!outpath.empty()) {
       FILE* f = fopen(outpath.c_str(), "w");
       if (!f) { perror("out"); return 2; }
@@ -346,6 +346,7 @@ class Runner {
 
  private:
   SpaceStat lastLevel;
+  std::vector<std::pair<std::string, uint64_t>> expected;
   void mergeTotal(const Out& o) { Out c = o; c.emitted.clear(); total.merge(c); }
   static std::string digest(const std::string& s) { char b[40]; snprintf(b, sizeof b, "%016llx%016llx", (unsigned long long)h64a(s), (unsigned long long)h64b(s)); return b; }
 
@@ -463,7 +464,7 @@ class Runner {
       pids[w] = p;
     };
     for (int w = 0; w < W; ++w) spawn(w, {});
-    int live = W; uint64_t slowDone = 0;
+    int live = W; uint64_t slowDone = 0; std::map<std::string, int> hangConfirmed;
     std::vector<Viol> crashViols;
     while (live > 0) {
       int status = 0; pid_t p = wait(&status);
@@ -479,12 +480,13 @@ class Runner {
       std::string tail = readTail(files[w].back() + ".err");
       bool hang = WIFEXITED(status) && WEXITSTATUS(status) == 99;
       if (hang) {
-        // re-run alone with a 10x budget before calling it a hang
-        Out alone; int rs = runAlone(name, fn, k, caseTimeout * 10, alone);
+        // re-run alone with a 10x budget before calling it a hang (first 3 per site; further time-outs at a site already confirmed are taken as hangs)
+        Out alone; int rs = 99;
+        if (hangConfirmed[site] < 3) rs = runAlone(name, fn, k, caseTimeout * 10, alone);
         if (onEmit) { for (auto& e : alone.emitted) onEmit(e); alone.emitted.clear(); }
         res.merge(alone);
         if (rs == 0) { ++slowDone; /* slow, not hanging: results merged */ }
-        else if (rs == 99) { st.hangs++; Viol v; v.sig = "hang|" + site; v.space = name; v.witness = str(k); v.detail = "case did not return within " + num(caseTimeout * 10) + " s (site: " + site + ")"; crashViols.push_back(v); }
+        else if (rs == 99) { st.hangs++; hangConfirmed[site]++; Viol v; v.sig = "hang|" + site; v.space = name; v.witness = str(k); v.detail = "case did not return within " + num(caseTimeout * 10) + " s (site: " + site + ")"; crashViols.push_back(v); }
         else { st.crashes++; Viol v; v.sig = "crash|" + site + "|after-timeout"; v.space = name; v.witness = str(k); v.detail = "case died when re-run alone"; crashViols.push_back(v); }
       } else if (k < b) {
         st.crashes++;
